@@ -168,4 +168,4 @@ pub fn wrap(shared: &Rc<Shared>, inner: Box<dyn SatSolver>) -> Wrapped {
 
 /// Default cap on SAT calls per query for checks that are not about the call bound:
 /// far above anything a correct computation on <= 13 arguments needs.
-pub const DEFAULT_CAP: usize = 200_000;
+pub const DEFAULT_CAP: usize = 30_000;
